@@ -346,9 +346,10 @@ func doSecondaryGet(db kv.DB, req *proto.GetRequest) (primaryKey string, seconda
 
 	if req.ComparisonType == proto.KeyComparisonType_LOWER {
 		it.SeekLT(searchKey)
-	} else {
-		// For all the other cases, we set the iterator on >=
-		it.SeekGE(searchKey)
+	} else if !it.SeekGE(searchKey) && req.ComparisonType == proto.KeyComparisonType_FLOOR {
+		// For all the other cases, we set the iterator on >=. If there is no such key in the
+		// whole db, the floor (if any) is the last key before the search key.
+		it.SeekLT(searchKey)
 	}
 
 	for it.Valid() {
@@ -405,5 +406,6 @@ func doSecondaryGet(db kv.DB, req *proto.GetRequest) (primaryKey string, seconda
 		}
 	}
 
-	return primaryKey, secondaryKey, err
+	// The iterator ran off the key space without finding a match
+	return "", "", nil
 }
